@@ -24,5 +24,14 @@ try:
             print(p, tier, r.stdout.strip().splitlines()[-1] if r.stdout.strip() else r.stderr[-300:])
         d = json.load(open(f)) if os.path.exists(f) else {}
         print("  recorded:", {k: len(v) for k, v in d.items()})
+        if p == "C01":
+            # builder calls of the alphabet that raise on the reference tree (per-process scratch files written by mc/checks/c01.py)
+            import glob
+            ents = set()
+            for part in glob.glob(os.path.join(root, "known_witnesses", ".C01_raises.*")):
+                ents.update(l.strip() for l in open(part) if l.strip())
+                os.remove(part)
+            json.dump(sorted(ents), open(os.path.join(root, "known_witnesses", "C01_raises.json"), "w"), indent=0)
+            print("  raising calls recorded:", len(ents))
 finally:
     shutil.rmtree(tmp, ignore_errors=True)
